@@ -6,7 +6,7 @@
 From Coq Require Import NArith ZArith Bool List.
 From SV.Gen Require Import Tables.
 From SV.Str Require Import Common Quote HtmlEsc Unquote Utf8 RefUtf8 AstQuote TablesOk FinderProofs QuoteProofs
-     GoQuoteProofs RoundTrip HtmlProofs Utf8Proofs UnquoteProofs.
+     GoQuoteProofs RoundTrip HtmlProofs Utf8Proofs UnquoteProofs DoubleProofs Swar.
 Import ListNotations.
 Open Scope nat_scope.
 
@@ -130,6 +130,44 @@ Theorem C20_unquote_len_le : forall flags s o, has flags c_F_DBLUNQ = false ->
 Proof. exact unquote_len_le. Qed.
 Print Assumptions C20_unquote_len_le.
 
+(* the SWAR test unhex16_is of native/parsing.h (hasless / hasmore / hasbetween on the 32-bit word, and with the
+   64-bit intermediates the C code really uses) is exactly "all four bytes are hex digits" - the abstraction used by
+   the unquote model is exact on bytes *)
+Theorem C20_unhex16_is_swar : forall s,
+  (nth 0 s 0 < 256 -> nth 1 s 0 < 256 -> nth 2 s 0 < 256 -> nth 3 s 0 < 256 -> unhex16_is_swar s = unhex16_is s)%N.
+Proof. exact unhex16_is_swar_spec. Qed.
+Print Assumptions C20_unhex16_is_swar.
+
+Theorem C20_unhex16_is_swar64 : forall s,
+  (nth 0 s 0 < 256 -> nth 1 s 0 < 256 -> nth 2 s 0 < 256 -> nth 3 s 0 < 256 -> unhex16_is_swar64 s = unhex16_is s)%N.
+Proof. exact unhex16_is_swar64_spec. Qed.
+Print Assumptions C20_unhex16_is_swar64.
+
+(* ---------------------------------------------------------------- double mode (`,string`) against encoding/json *)
+
+(* reference = two applications of the reference unquoter (outer literal, then inner literal).  On the canonical
+   double escape (what alg.Quote(double) / the encoder writes) the fused native routine agrees with it ... *)
+Theorem C20_unquote_double_canonical_partial : forall flags t, has flags c_F_DBLUNQ = true ->
+  unquote flags (escape_all _DoubleQuoteTab t) = UOk t /\
+  ref_unquote2 (has flags c_F_UNIREP) (escape_all _DoubleQuoteTab t) = Some t.
+Proof. exact unquote_double_canonical. Qed.
+Print Assumptions C20_unquote_double_canonical_partial.
+
+Example C20_double_hyp_sat : has 1%N c_F_DBLUNQ = true /\ has 3%N c_F_DBLUNQ = true.
+Proof. exact double_canonical_hyp_sat. Qed.
+
+(* ... but not in general: the full statement `unquote (DBL) = ref_unquote2` is false of the faithful model.
+   Witnesses (replayed on the real code through sonic.Unmarshal into a `,string` field, KF-double-unquote-fusion):
+   \u005cn -> bytes 5c 6e instead of a newline; \\ud83d\ude00 -> U+FFFD ude00 instead of U+FFFD U+FFFD;
+   \\ud800\\\\ (canonical escape of a lone surrogate followed by an escaped backslash) -> ERR_EOF instead of U+FFFD 5c *)
+Theorem C20_unquote_double_refuted :
+  (unquote 3 dbl_w1 = UOk [92; 110]%N /\ ref_unquote2 true dbl_w1 = Some [10]%N) /\
+  (unquote 3 dbl_w2 = UOk [239; 191; 189; 117; 100; 101; 48; 48]%N /\
+   ref_unquote2 true dbl_w2 = Some [239; 191; 189; 239; 191; 189]%N) /\
+  (unquote 3 dbl_w3 = UErr c_ERR_EOF 11 /\ ref_unquote2 true dbl_w3 = Some [239; 191; 189; 92]%N).
+Proof. exact unquote_double_refuted. Qed.
+Print Assumptions C20_unquote_double_refuted.
+
 (* ---------------------------------------------------------------- html_escape *)
 
 Theorem C20_html_escape_spec : forall ws src dn, Forall (fun W => 0 < W) ws ->
@@ -147,21 +185,27 @@ Theorem C20_html_escape_width_independent : forall ws src dn, Forall (fun W => 0
 Proof. exact html_escape_width_independent. Qed.
 Print Assumptions C20_html_escape_width_independent.
 
-(* alg.HtmlEscape = dst ++ json.HTMLEscape reference, for every capacity schedule - EXCEPT when the initial growth
-   request is smaller than len(dst) (rt.GrowSlice panics): that guard is exactly the second hypothesis *)
-Theorem C20_go_html_escape_spec_partial : forall (grow : nat -> nat -> nat), (forall old req, req <= grow old req) ->
+(* alg.HtmlEscape = dst ++ json.HTMLEscape reference for EVERY destination and every capacity schedule (full strength
+   since the repair e1e5e27; before it the growth request forgot len(dst) and rt.GrowSlice panicked) *)
+Theorem C20_go_html_escape_spec : forall (grow : nat -> nat -> nat), (forall old req, req <= grow old req) ->
   forall ws, Forall (fun W => 0 < W) ws ->
   forall dst cap src, length dst <= cap ->
-    (length src * 3 / 2 + 64 < length dst -> length src + 64 <= cap - length dst) ->
     go_html_escape grow ws dst cap src = GoOk (dst ++ html_ref src).
 Proof. exact go_html_escape_spec. Qed.
-Print Assumptions C20_go_html_escape_spec_partial.
+Print Assumptions C20_go_html_escape_spec.
 
-(* the full statement (every destination) is false of the faithful model: the pinned code panics *)
-Theorem C20_htmlescape_prefix_refuted :
-  exists dst cap src, length dst <= cap /\ go_html_escape grow_exact ws_avx2 dst cap src = GoPanic.
-Proof. exact go_html_escape_prefix_refuted. Qed.
-Print Assumptions C20_htmlescape_prefix_refuted.
+(* the destination prefix is preserved *)
+Theorem C20_go_html_escape_prefix : forall (grow : nat -> nat -> nat), (forall old req, req <= grow old req) ->
+  forall ws, Forall (fun W => 0 < W) ws ->
+  forall dst cap src, length dst <= cap ->
+    exists out, go_html_escape grow ws dst cap src = GoOk out /\ firstn (length dst) out = dst.
+Proof. exact go_html_escape_prefix. Qed.
+Print Assumptions C20_go_html_escape_prefix.
+
+(* the witness of the repaired defect, kept as a regression example *)
+Example C20_htmlescape_regression :
+  go_html_escape grow_exact ws_avx2 (repeat 112%N 65) 65 [] = GoOk (repeat 112%N 65).
+Proof. exact go_html_escape_regression. Qed.
 
 (* ---------------------------------------------------------------- UTF-8 *)
 
